@@ -4,6 +4,8 @@ From FV.C11 Require Import Model Entry.
 From FV.C11.gen Require Import Kernels.
 Import ListNotations.
 Open Scope R_scope.
+(* no sentence of this file may hold the shared Coq build lock for long *)
+Set Default Timeout 240.
 
 (* ------------------------------------------------------------------ tactics *)
 Ltac dM M := destruct M as [[[[? ?] ?] [[? ?] ?]] [[? ?] ?]].
